@@ -153,6 +153,8 @@ def r2_pairing(c, facts):
             fn = c.anchor(R, q)
         except Exception:
             continue
+        # private helpers of the module (`eval_in_scope(ctx, scope, ..)`) are looked through
+        fn = facts.inlined(fn, keep=('push_scope', 'pop_scope', 'eval_any', 'eval_terminal', 'node_identifier', 'lookup_binding'))
         pushes = P.call_blocks(fn, 'Context::push_scope')
         pops = P.call_blocks(fn, 'Context::pop_scope')
         if not pushes:
@@ -176,7 +178,7 @@ def r2_pairing(c, facts):
 
 def r3_eager(c, facts):
     R = c.rule('C08.R3', 'EAGER: arguments are evaluated in the caller scope (before push_scope); the pushed scope is the one filled from them')
-    fn = c.anchor(R, 'oal_compiler::eval::eval_application')
+    fn = facts.inlined(c.anchor(R, 'oal_compiler::eval::eval_application'), keep=('push_scope', 'pop_scope', 'eval_any', 'eval_terminal', 'node_identifier', 'lookup_binding'))
     pushes = P.call_blocks(fn, 'Context::push_scope')
     pops = [b for b, _ in P.call_blocks(fn, 'Context::pop_scope')]
     evals = P.call_blocks(fn, 'eval::eval_terminal')
